@@ -416,15 +416,18 @@ def gen_ens2_specs(seed, n):
     out = []
     for _ in range(n):
         ndim = rng.choice([1, 2, 2, 3])
+        nbins = [3] * ndim
+        while np.prod(nbins) > 6:       # <= 6 members: a step-wise run costs O(members x generations^2)
+            nbins = [rng.choice([1, 2, 3]) for _ in range(ndim)]
         nested = rng.choice(['NM', 'NM', 'NM', 'Powell'])
         term = rng.choice(POP_TERMS if nested == 'NM' else ['spread', 'and', 'vtrcog', 'cog'])   # crt needs nPop > 1
         tight, clip = rng.choice(RANGE_MODES)
         out.append(dict(kind='ens2', ens=rng.choice(['lattice', 'buckshot']), nested=nested, ndim=ndim,
-                        nbins=[rng.choice([1, 2, 3]) for _ in range(ndim)], npts=rng.choice([2, 3, 5]),
+                        nbins=nbins, npts=rng.choice([2, 3, 5]),
                         cost=rng.choice(sorted(COSTS)), bounds=rng.random() < 0.8, tight=tight, clip=clip,
                         cons=rng.random() < 0.2, pen=rng.random() < 0.2, instance=False,
-                        genmon=rng.random() < 0.5, evalmon=rng.random() < 0.3, maxgen=rng.choice([40, 120, 120, 300]),
-                        term=term, tol=rng.choice([1e-2, 1e-3, 1e-4]), stepmap=rng.choice(QUICK_MAPS),
+                        genmon=rng.random() < 0.5, evalmon=rng.random() < 0.3, maxgen=rng.choice([40, 100, 200]),
+                        term=term, tol=rng.choice([1e-2, 1e-3, 1e-4]), stepmap=rng.choice(QUICK_MAPS), stepmode=rng.choice(['step', 'solve-step']),
                         seed=rng.randrange(10 ** 6)))
     return out
 
@@ -473,8 +476,10 @@ def check_ens(spec, maps, res, extra=None):
     res.case('ens:solve:builtin:' + tag, nontrivial=ref[0] != 'EXC')
     if ref[0] == 'EXC' and extra is not None:
         extra.setdefault('aborted', []).append(str(ref))
-    stepmaps = ['builtin'] + [m for m in [spec.get('stepmap')] if m in maps]
-    for mode, m in itertools.product(('step', 'solve-step'), stepmaps):
+    stepwise = [('step', 'builtin'), ('solve-step', 'builtin')]
+    if spec.get('stepmap') in maps:
+        stepwise.append((spec['stepmode'], spec['stepmap']))
+    for mode, m in stepwise:
         r = go(mode, m)
         res.case('ens:%s:%s:%s' % (mode, m, tag))
         if r != ref:
